@@ -177,6 +177,14 @@ readArray:
 			dst = append(dst, float64(a.tape.Tape[a.off]))
 		case TagArrayEnd:
 			break readArray
+		case TagNop:
+			// Deleted or replaced entries: continue at the next live entry.
+			skip := a.tape.Tape[a.off-1] & JSONVALUEMASK
+			if skip == 0 || skip > uint64(len(a.tape.Tape)-a.off+1) {
+				return nil, errors.New("corrupt input: invalid nop skip")
+			}
+			a.off += int(skip) - 1
+			continue
 		default:
 			return nil, fmt.Errorf("unable to convert type %v to float", tag)
 		}
@@ -231,6 +239,14 @@ readArray:
 			dst = append(dst, int64(val))
 		case TagArrayEnd:
 			break readArray
+		case TagNop:
+			// Deleted or replaced entries: continue at the next live entry.
+			skip := a.tape.Tape[a.off-1] & JSONVALUEMASK
+			if skip == 0 || skip > uint64(len(a.tape.Tape)-a.off+1) {
+				return nil, errors.New("corrupt input: invalid nop skip")
+			}
+			a.off += int(skip) - 1
+			continue
 		default:
 			return nil, fmt.Errorf("unable to convert type %v to integer", tag)
 		}
@@ -285,6 +301,14 @@ readArray:
 			dst = append(dst, a.tape.Tape[a.off])
 		case TagArrayEnd:
 			break readArray
+		case TagNop:
+			// Deleted or replaced entries: continue at the next live entry.
+			skip := a.tape.Tape[a.off-1] & JSONVALUEMASK
+			if skip == 0 || skip > uint64(len(a.tape.Tape)-a.off+1) {
+				return nil, errors.New("corrupt input: invalid nop skip")
+			}
+			a.off += int(skip) - 1
+			continue
 		default:
 			return nil, fmt.Errorf("unable to convert type %v to integer", tag)
 		}
